@@ -30,6 +30,8 @@ type Facts struct {
 	MayFail  map[*ssa.Function]bool // some return carries a possibly non-nil error
 
 	own *ownAnalysis
+
+	propReach map[string]map[*ssa.Function]bool
 }
 
 // NewFacts computes the shared facts.
